@@ -138,7 +138,17 @@ def classify(b, run):
         located = []
         for sp in spans:
             if sp.get("file_name") and os.path.basename(sp["file_name"]) != os.path.basename(b.path):
-                located.append((sp, ("foreign", sp.get("file_name"))))
+                # macro expansion (assert!/debug_assert!/panic!): walk out to the call site in our file
+                e, depth = sp, 0
+                while e is not None and depth < 8 and os.path.basename(e.get("file_name", "")) != os.path.basename(b.path):
+                    e = (e.get("expansion") or {}).get("span")
+                    depth += 1
+                if e is not None and os.path.basename(e.get("file_name", "")) == os.path.basename(b.path):
+                    sp2 = dict(e)
+                    sp2["label"] = sp.get("label")
+                    located.append((sp2, locate(b, char_off(e["byte_start"]))))
+                else:
+                    located.append((sp, ("foreign", sp.get("file_name"))))
                 continue
             located.append((sp, locate(b, char_off(sp["byte_start"]))))
         clause = None
